@@ -234,7 +234,9 @@ def scope_inventory(fnode) -> Dict[str, List[str]]:
 
 
 def shape(fnode) -> dict:
-    return {"locals": local_names(fnode), "eqs": eq_texts(fnode), "ifs": if_texts(fnode), "scopes": scope_inventory(fnode)}
+    from . import normalise2 as N2
+    return {"locals": local_names(fnode), "eqs": eq_texts(fnode), "ifs": if_texts(fnode), "scopes": scope_inventory(fnode),
+            "guards": N2.guard_forms(fnode), "ifs_noelse": N2.noelse_texts(fnode), "ifexps": N2.ifexp_texts(fnode)}
 
 
 def functions_of(tree):
@@ -415,22 +417,43 @@ class _PushNot(ast.NodeTransformer):
 
 
 def normalise_module(tree, module_name: str) -> int:
+    from . import normalise2 as N2
     pn = _PushNot()
     pn.visit(tree)
     ref = load_ref().get(module_name)
     if not ref:
         return pn.n
     n = pn.n
+    if "guards" in next(iter(ref.values()), {}):   # reference produced with the structural inventory
+        try:
+            n += N2.inline_helpers(tree, ref)
+        except Exception:   # pragma: no cover - the front end must never take the analysis down
+            pass
+        ic = N2._IfExpCall()
+        ic.visit(tree)
+        n += ic.n
     for q, fn in functions_of(tree):
         r = ref.get(q)
         if r:
+            if "guards" in r:
+                for step in (N2.merge_branch_assignments, N2.inline_new_locals, N2.inline_new_locals, N2.ifexp_tests, N2.split_ifexp_statements, N2.unguard, N2.guardify):
+                    try:
+                        n += step(fn, r)
+                    except Exception:   # pragma: no cover
+                        pass
             n += normalise_function(fn, r)
+            if "guards" in r:
+                try:
+                    n += N2.emptiness_forms(fn, r)
+                except Exception:   # pragma: no cover
+                    pass
     return n
 
 
 def build_reference(modules: Dict[str, ast.AST]) -> dict:
     out = {}
     for name, tree in sorted(modules.items()):
+        _PushNot().visit(tree)   # texts are compared after the unconditional canonicalisation
         fs = {}
         for q, fn in functions_of(tree):
             fs[q] = shape(fn)
